@@ -121,7 +121,13 @@ fn c07_outcomes(rep: &mut Report, replay: &Option<Value>) {
     };
     for e in &errors {
         let m = member(*e);
-        let params: Vec<Option<Value>> = vec![None, Some(json!({m: "the-thing"})), Some(json!({m: 7})), Some(json!({"other": "x"})), Some(json!({})), Some(json!(null)), Some(json!("str"))];
+        let mut params: Vec<Option<Value>> = vec![None, Some(json!({m: "the-thing"})), Some(json!({m: 7})), Some(json!({"other": "x"})), Some(json!({})), Some(json!(null)), Some(json!("str"))];
+        if e.is_none() || *e == Some("x.y.Custom") {
+            // replies larger than the 8 KiB read buffer with multi-byte characters at every alignment
+            for pre in ["", "x", "xy"] {
+                params.push(Some(json!({"big": format!("{}{}", pre, "€ä\u{1F600}".repeat(2500))})));
+            }
+        }
         for p in &params {
             for cont in [None, Some(false)] {
                 let mut reply = serde_json::Map::new();
